@@ -40,15 +40,15 @@ func NewUintNode(byteSize int, values ...interface{}) ItemNode {
 	for i, value := range values {
 		switch value := value.(type) {
 		case int:
-			nodeValues = append(nodeValues, uint64(value))
+			nodeValues = append(nodeValues, nonNegative(int64(value)))
 		case int8:
-			nodeValues = append(nodeValues, uint64(value))
+			nodeValues = append(nodeValues, nonNegative(int64(value)))
 		case int16:
-			nodeValues = append(nodeValues, uint64(value))
+			nodeValues = append(nodeValues, nonNegative(int64(value)))
 		case int32:
-			nodeValues = append(nodeValues, uint64(value))
+			nodeValues = append(nodeValues, nonNegative(int64(value)))
 		case int64:
-			nodeValues = append(nodeValues, uint64(value))
+			nodeValues = append(nodeValues, nonNegative(value))
 		case uint:
 			nodeValues = append(nodeValues, uint64(value))
 		case uint8:
@@ -153,6 +153,14 @@ func (node *UintNode) String() string {
 }
 
 // Private methods
+
+// nonNegative converts a signed integer to uint64, and panics if it is negative.
+func nonNegative(value int64) uint64 {
+	if value < 0 {
+		panic("value overflow")
+	}
+	return uint64(value)
+}
 
 func (node *UintNode) checkRep() {
 	if node.byteSize != 1 && node.byteSize != 2 &&
